@@ -7,6 +7,8 @@
 """
 from __future__ import annotations
 
+import contextlib
+
 import math
 import os
 from vcore.pool import pmap
@@ -57,6 +59,8 @@ def an_batches(torch, seed):
         3: torch.randn(3, 3, 2, 3, generator=g) * torch.tensor([2.0, 0.3, 1.0]).view(1, 3, 1, 1) + 0.8,
         # one image: a batch of a single item still has per-channel statistics (2 x 3 pixels)
         4: torch.randn(1, 3, 2, 3, generator=g) * torch.tensor([0.7, 1.5, 2.5]).view(1, 3, 1, 1) - 1.1,
+        # features of very different (tiny but legal) scales: the statistics are the batch's, nothing added
+        5: torch.randn(8, 3, generator=g) * torch.tensor([1e-5, 1.0, 3e-4]) + torch.tensor([0.0, 0.5, 0.0]),
     }
 
 
@@ -163,7 +167,11 @@ def an_walk_task(task):
                     m = host.m
                 elif name == "Forward":
                     x = B[int(args[0])]
-                    out, lad = m.forward(x.clone())
+                    # every second call is a gradient-free pass (a warm-up / calibration sweep): the life-cycle
+                    # does not depend on whether autograd is recording
+                    with (torch.no_grad() if steps % 2 == 0 else contextlib.nullcontext()):
+                        out, lad = m.forward(x.clone())
+                    out, lad = out.detach(), lad.detach()
                 elif name == "Inverse":
                     x = B[int(args[0])]
                     out, lad = m.inverse(x.clone())
@@ -271,7 +279,9 @@ def bn_walk_task(task):
                     host.save_load_fresh(scramble)
                     m = host.m
                 elif name == "Forward":
-                    out, lad = m.forward(B[int(args[0])].clone())
+                    with (torch.no_grad() if steps % 2 == 0 else contextlib.nullcontext()):
+                        out, lad = m.forward(B[int(args[0])].clone())
+                    out, lad = out.detach(), lad.detach()
                 elif name == "Inverse":
                     out, lad = m.inverse(B[int(args[0])].clone())
                 elif name == "LoadDonor":
@@ -347,7 +357,7 @@ def main(run, replay=None):
     thorough = run.tier == "thorough"
     nproc = min(16, os.cpu_count() or 4)
     # ---------------- ActNorm
-    res = T.run_tlc("ActNormLife", T.cfg(constants={"NumBatches": 4}, invariants=["TypeOK", "InitializedIffFromBatch"], properties=AN_PROPS), dot=True, name="actnorm")
+    res = T.run_tlc("ActNormLife", T.cfg(constants={"NumBatches": 5}, invariants=["TypeOK", "InitializedIffFromBatch"], properties=AN_PROPS), dot=True, name="actnorm")
     run.model_must_hold(res, "ActNormLife")
     run.add_tlc(res, "ActNormLife", require_actions=["Forward", "Inverse", "SaveLoadFresh", "Train", "Eval"])
     g = parse_dot(res.dot)
@@ -427,7 +437,7 @@ def main(run, replay=None):
 def _history_walk(c):
     """Rebuild an annotated walk for a recorded history by re-running TLC and following labels."""
     if c["layer"] == "ActNorm":
-        res = T.run_tlc("ActNormLife", T.cfg(constants={"NumBatches": 4}), dot=True, coverage=False)
+        res = T.run_tlc("ActNormLife", T.cfg(constants={"NumBatches": 5}), dot=True, coverage=False)
     else:
         mom = Fraction(*c["momentum"])
         name = "MC_BN_%d_%d" % (mom.numerator, mom.denominator)
